@@ -490,10 +490,27 @@ func expandGlob(root, pattern string) ([]string, error) {
 		return nil
 	}
 
-	err := doublestar.GlobWalk(os.DirFS(root), pattern, ignoreHiddenGlobFn)
+	err := doublestar.GlobWalk(os.DirFS(root), withoutDotSegments(pattern), ignoreHiddenGlobFn)
 	if err != nil {
 		return nil, fmt.Errorf("could not expand glob pattern %q: %w", pattern, err)
 	}
 
 	return matches, nil
+}
+
+// withoutDotSegments drops the '.' segments of a glob pattern ('./src/*.go', 'src/./*.go'): they name
+// the directory they stand in, but the paths of an fs.FS never contain them, so a pattern written
+// that way would silently match nothing below the first directory.
+func withoutDotSegments(pattern string) string {
+	segments := strings.Split(pattern, "/")
+	kept := make([]string, 0, len(segments))
+	for _, segment := range segments {
+		if segment != "." {
+			kept = append(kept, segment)
+		}
+	}
+	if len(kept) == 0 {
+		return pattern
+	}
+	return strings.Join(kept, "/")
 }
